@@ -1,4 +1,4 @@
 SPECIFICATION GSpec
 CONSTANTS Tier = "quick"
-INVARIANT C04_Model
+INVARIANTS C04_Model C05e_Model
 CHECK_DEADLOCK FALSE
